@@ -257,7 +257,7 @@ def main():
         'source_hints': ctx.hints.describe() if getattr(ctx, 'hints', None) else [],
         'escalated': bool(getattr(ctx, 'escalated', False)),
         'build_s': proof.get('build_s'),
-        'notes': jsonable(ctx.notes),
+        'notes': _cap(jsonable(ctx.notes)),
         'exhaustive': bool(getattr(mod, 'EXHAUSTIVE', False)),
     }
     ev = {
@@ -275,6 +275,24 @@ def main():
           f"corr_disagreements={len(ctx.corr_failures)} oracle_failures={len(unexplained)} "
           f"known={len(printed_known)}({sum(getattr(ctx, 'known_count', {}).values())} cases) wall={wall:.1f}s -> {'FAIL' if violations else 'ok'}")
     return 1 if violations else 0
+
+
+def _cap(o, depth=0):
+    """keep the evidence file small: long strings and long lists inside notes are truncated (the replay files hold the details)"""
+    if isinstance(o, str):
+        return o if len(o) <= 1500 else o[:1500] + f' …[{len(o) - 1500} more characters]'
+    if isinstance(o, dict):
+        items = list(o.items())
+        out = {str(k): _cap(v, depth + 1) for k, v in items[:60]}
+        if len(items) > 60:
+            out['…'] = f'{len(items) - 60} more keys'
+        return out
+    if isinstance(o, (list, tuple)):
+        out = [_cap(v, depth + 1) for v in list(o)[:40]]
+        if len(o) > 40:
+            out.append(f'…[{len(o) - 40} more items]')
+        return out
+    return o
 
 
 def generic_replay(mod, ctx, payload):
